@@ -99,6 +99,14 @@ inline void sanitizerDeath()
 	writeCrashLine("sanitizer", 0);
 }
 
+// per-run watchdog (seconds): a real hang (self-deadlock on a real mutex, an endless loop) becomes a reported seed
+inline unsigned watchdogSeconds()
+{
+	static unsigned w = 0;
+	if(w == 0) { const char * e = std::getenv("VERIF_WATCHDOG_S"); const long v = e ? std::atol(e) : 0; w = v > 0 ? (unsigned)v : 20u; }
+	return w;
+}
+
 inline void alarmHandler(int)
 {
 	writeCrashLine("hang", 14);
@@ -202,7 +210,7 @@ inline int workerMain(int argc, char ** argv)
 		if(resched >= 0) { plan.useChoices = false; plan.choices.clear(); plan.setSchedSeed((uint64_t)resched * 0x9e3779b97f4a7c15ULL + 12345); }
 		workerState().currentIndex = -2;
 		RunOut out;
-		alarm(60);
+		alarm(watchdogSeconds());
 		engine::execute(plan, out);
 		alarm(0);
 		if(out.violation) {
@@ -234,12 +242,14 @@ inline int workerMain(int argc, char ** argv)
 	uint64_t steps = 0;
 	std::unordered_set<uint64_t> distinct;
 	std::vector<std::string> samples;
+	double maxRunWall = 0;
 	for(long n = 0; n < count; ++n) {
 		if(timeLimit > 0 && (n & 15) == 0 && wallNow() - t0 > timeLimit) break;
 		const long index = start + n * stride;
 		const uint64_t seed = mixSeed(base, (uint64_t)index);
 		workerState().currentIndex = index;
-		alarm(60); // watchdog: a real hang (e.g. self-deadlock on std::mutex) becomes a reported seed
+		alarm(watchdogSeconds()); // watchdog: a real hang (e.g. self-deadlock on std::mutex) becomes a reported seed
+		const double runT0 = wallNow();
 		Plan plan;
 		if(plansPath) {
 			JVal root; JParser parser(planLines[(size_t)n]);
@@ -267,6 +277,7 @@ inline int workerMain(int argc, char ** argv)
 			if(out.violation) { printViolation(index, seed, plan, out); reported = true; }
 			else if(out.nontrivial) { ++nontrivial; distinct.insert(out.caseHash); }
 		}
+		{ const double dt = wallNow() - runT0; if(dt > maxRunWall) maxRunWall = dt; }
 		if(logHashes) std::printf("H %ld %s\n", index, hex64(out.logHash).c_str());
 		if(samples.size() < 3 && n % 7 == 3) samples.push_back(engine::describe(plan));
 		if(reported) {
@@ -290,7 +301,7 @@ inline int workerMain(int argc, char ** argv)
 		+ ",\"pilots\":" + std::to_string(pilots) + ",\"sub_runs\":" + std::to_string(subRuns)
 		+ ",\"violations\":" + std::to_string(violations) + ",\"nontrivial\":" + std::to_string(nontrivial)
 		+ ",\"distinct\":" + std::to_string((long)distinct.size()) + ",\"steps\":" + std::to_string((unsigned long long)steps)
-		+ ",\"wall\":" + std::to_string(wallNow() - t0) + ",\"samples\":[";
+		+ ",\"wall\":" + std::to_string(wallNow() - t0) + ",\"max_run_wall\":" + std::to_string(maxRunWall) + ",\"samples\":[";
 	for(size_t i = 0; i < samples.size(); ++i) { if(i) s += ","; s += "\"" + jsonEscape(samples[i]) + "\""; }
 	s += "]";
 	engine::statsJson(s);
